@@ -112,11 +112,8 @@ def obsSx (q : Q Float) (am : AM) (grid : Shape) : Sx :=
   .list [.atom (match q.cls with | .scalar => "Scalar" | .boolean => "Boolean"),
          Sx.ofNats q.obj.shape, .list ((selected am grid).map cell)]
 
-def shrinkAll (cfg : Cfg) (am : AM) : List (Q Float) → Option (List (Q Float))
-  | [] => some []
-  | x :: xs => match shrink dflt cfg am x, shrinkAll cfg am xs with
-    | some y, some ys => some (y :: ys)
-    | _, _ => none
+def shrinkAll (cfg : Cfg) (am : AM) (env : List (Q Float)) : Option (List (Q Float)) :=
+  mapOpt (shrink dflt cfg am) env
 
 def handle : List Sx → Sx
   | [.atom "run", cfg, am, grid, tree, .list opds] =>
